@@ -291,3 +291,65 @@ def compare_read(model, seq2):
             if not close(mrow[j], F(data[j])):
                 return {'section': 'grad', 'id': gid, 'col': j, 'model': float(mrow[j]), 'impl': data[j]}
     return None
+
+
+# ---- first/last reconstruction scan (Model/Scan.v) --------------------------------------------------------------
+def scan_inputs(seq2):
+    """what the scan of read_seq.py reads, taken from the re-read sequence: per gradient id (trap?, delay, duration,
+    end value of the waveform) computed with the very float expressions of the scan, and per block (duration, ids)"""
+    lib = {}
+    blocks = []
+    for b in seq2.block_events:
+        ev = seq2.block_events[b]
+        blk = seq2.get_block(b)
+        ids = [int(ev[2]), int(ev[3]), int(ev[4])]
+        blocks.append((F(float(seq2.block_durations[b])), ids))
+        for j, ch in enumerate(('gx', 'gy', 'gz')):
+            g = getattr(blk, ch)
+            gid = ids[j]
+            if g is None or gid in lib:
+                continue
+            if g.type == 'trap':
+                lib[gid] = (True, F(float(g.delay)), Fraction(0), Fraction(0))
+                continue
+            time_id = seq2.grad_library.data[gid][2]
+            if time_id != 0:
+                last = g.waveform[-1]
+                dur = g.delay + g.tt[-1]
+            else:
+                last = (3 * g.waveform[-1] - g.waveform[-2]) * 0.5
+                dur = g.delay + len(g.waveform) * seq2.grad_raster_time
+            lib[gid] = (False, F(float(g.delay)), F(float(dur)), F(float(last)))
+    return lib, blocks
+
+
+def encode_scan(lib, blocks):
+    parts = ['file.scan', str(len(lib))]
+    for gid, (trap, delay, dur, wl) in lib.items():
+        parts += [ztok(gid), '1' if trap else '0', qtok(delay), qtok(dur), qtok(wl)]
+    parts.append(str(len(blocks)))
+    for dur, ids in blocks:
+        parts += [qtok(dur), zlist(ids)]
+    return ' '.join(parts)
+
+
+def compare_scan(line, seq2, lib):
+    """model (first, last) table vs columns 4, 5 of the implementation's gradient library after read()"""
+    t = Toks(line)
+    t.list(t.q)
+    done = {}
+    for _ in range(t.int()):
+        gid = t.z()
+        done[gid] = (t.q(), t.q())
+    for gid, (trap, _, _, _) in lib.items():
+        if trap:
+            continue
+        row = seq2.grad_library.data[gid]
+        if len(row) < 6:
+            return {'section': 'scan', 'id': gid, 'what': 'implementation left the row without first/last'}
+        if gid not in done:
+            return {'section': 'scan', 'id': gid, 'what': 'model did not reconstruct the event'}
+        got = (F(float(row[4])), F(float(row[5])))
+        if got != done[gid]:
+            return {'section': 'scan', 'id': gid, 'model': [float(done[gid][0]), float(done[gid][1])], 'impl': [float(got[0]), float(got[1])]}
+    return None
